@@ -1,6 +1,7 @@
 """C19 - path and list splitting honour their contracts for every input."""
 import itertools
 import re
+import time
 
 import common
 from common import Disagreement, Failure, req, hexs
@@ -16,7 +17,12 @@ RULE = ('split_path: every path of 0..5 (quick) / 0..7 (thorough) segments over 
         'split_by_commas: every string up to a length over the alphabet {", comma, backslash, space, a, 3, x}, item lists '
         'of length 1..5 over printable ASCII (and a few control / non-ASCII characters) encoded bare / quoted / padded, '
         'mutations of such strings, and raw random strings; non-trivial when the string contains a quote, comma, '
-        'backslash or whitespace; distinct by the string. Also str.split and str.expandtabs against their models.')
+        'backslash or whitespace; distinct by the string. Also str.split and str.expandtabs against their models. '
+        'Added families (both in the correspondence and in the search): every blank / control character (LF, CR, CRLF, TAB, VT, '
+        'FF, FS-US, NEL, LS, PS, NBSP, ideographic space, BOM, NUL, ...) at each structural position of a path (before the '
+        'leading slash, start/end/whole of a segment, end of path, before/after the trailing slash) x all argument '
+        'combinations, and at the edges of items / around written items; long inputs (segments, segment counts and items of '
+        '1000..70000 characters, bare and quoted, at every list position).')
 TRUSTED_BASE = [
     'Lean 4 kernel; axioms audited per theorem (subset of propext, Classical.choice, Quot.sound)',
     'hand-written model OsloModel/Split.lean (split_path transcription; Python str.split / join / expandtabs; hand parser '
@@ -98,7 +104,8 @@ def impl_of(case):
 # generators
 
 SEG_KINDS = {'plain': 'ab', 'empty': '', 'dotted': '..', 'spaced': 'a b'}
-SEG_ALTS = {'plain': ['a', 'ab', 'x1', 'Z'], 'empty': [''], 'dotted': ['.', '..', 'a.b'], 'spaced': [' ', 'a b', ' a']}
+SEG_ALTS = {'plain': ['a', 'ab', 'x1', 'Z'], 'empty': [''], 'dotted': ['.', '..', 'a.b'], 'spaced': [' ', 'a b', ' a'],
+            'blank': ['\n', 'a\n', '\ra', '\r\n', '\t', 'a\x0b', '\x0c', '\x1f', '\x85', '\xa0b', '\u2028', 'a b\n']}
 
 
 def maxsegs_choices(mn):
@@ -127,19 +134,119 @@ def gen_path_cases_exhaustive(nmax):
                     yield {'kind': 'path', 'path': path, 'minsegs': mn, 'maxsegs': mx, 'rest_with_last': rwl}, 'exh/%d' % n
 
 
-PATH_ALPHA = ['/', '/', '/', 'a', 'b', '.', ' ', '\u00e9', '%', '\t', '\U0001f600', '//']
+PATH_ALPHA = ['/', '/', '/', 'a', 'b', '.', ' ', '\u00e9', '%', '\t', '\U0001f600', '//', '\n', '\r', '\x0b', '\x0c', '\x85',
+              '\xa0', '\u2028', '\x1c', '\x00']
 
 
 def gen_path_random(rng):
     n = rng.randrange(0, 9)
     if rng.random() < 0.6:
         segs = [rng.choice(SEG_ALTS[rng.choice(sorted(SEG_ALTS))]) for _ in range(n)]
-        path = rng.choice(['/', '/', '/', '', '//']) + '/'.join(segs) + rng.choice(['', '', '/', '//'])
+        path = (rng.choice(['/', '/', '/', '', '//', '\n/', ' /']) + '/'.join(segs) +
+                rng.choice(['', '', '/', '//', '\n', '\r\n', '/\n', '\t', ' ', '/\x0c', '\x85']))
     else:
         path = ''.join(rng.choice(PATH_ALPHA) for _ in range(rng.randrange(0, 14)))
     mn = rng.randrange(0, 6)
     mx = rng.choice([None, 0] + list(range(0, 9)))
     return {'kind': 'path', 'path': path, 'minsegs': mn, 'maxsegs': mx, 'rest_with_last': rng.random() < 0.5}
+
+
+# Characters that some "normalisation" (strip / rstrip / splitlines / isspace) would treat as blank: ASCII control
+# whitespace, the C1 NEL, Unicode line/paragraph separators, NBSP and friends, plus NUL.  None of them is special
+# to split_path (only '/' is) and only " \t\n\r" are skipped by the split_by_commas grammar.
+BLANKS = ['\n', '\r', '\r\n', '\n\n', '\t', '\x0b', '\x0c', '\x1c', '\x1d', '\x1e', '\x1f', '\x85', '\u2028',
+          '\u2029', '\xa0', ' ', '  ', '\u3000', '\u2003', '\ufeff', '\x00', ' \n']
+LONG_LENGTHS = [1000, 1023, 1024, 1025, 1026, 2048, 4096, 4097, 65536, 70000]
+
+
+def path_edge_templates(segs, w):
+    """Paths built from plain segments with the blank string `w` at every structural position."""
+    body = '/'.join(segs)
+    out = [
+        w + '/' + body,                 # before the leading slash
+        '/' + w + body,                 # start of the first segment
+        '/' + body + w,                 # end of the last segment = end of the path
+        '/' + body + '/' + w,           # whole extra segment / after the trailing slash
+        '/' + body + w + '/',           # before the trailing slash
+        '/' + body + '/' + w + '/',     # whole segment followed by a trailing slash
+        '/' + body + w + w,             # a run at the end
+        '/' + w,                        # the only segment
+        '/' + w + '/',
+        w,                              # no slash at all
+        '/' + w + '/' + body,           # whole first segment
+        '/' + segs[0] + w + '/' + body,     # end of an inner segment
+        '/' + segs[0] + '/' + w + body,     # start of an inner segment
+        '/' + segs[0] + '/' + w + '/' + body,   # whole inner segment
+    ]
+    return out
+
+
+def gen_path_edge_cases(quick):
+    bodies = [['a'], ['a', 'c']] if quick else [['a'], ['a', 'c'], ['a', 'c', 'o'], ['ab', '..', 'c d', 'e']]
+    seen = set()
+    for w in BLANKS:
+        for segs in bodies:
+            for path in path_edge_templates(segs, w):
+                if path in seen:
+                    continue
+                seen.add(path)
+                for mn in (1, 2, 3, 4):
+                    for mx in maxsegs_choices(mn):
+                        for rwl in (False, True):
+                            yield ({'kind': 'path', 'path': path, 'minsegs': mn, 'maxsegs': mx, 'rest_with_last': rwl},
+                                   'blank-edges')
+
+
+def long_text(rng, n, alphabet):
+    return ''.join(rng.choice(alphabet) for _ in range(n))
+
+
+def gen_path_long_cases(rng):
+    """Very long segments / very many segments (nothing in the contract depends on length)."""
+    for n in LONG_LENGTHS:
+        seg = long_text(rng, n, 'abcXYZ019._-%')
+        for path, mn, mx, rwl in [('/' + seg, 1, None, False), ('/a/' + seg, 1, 2, False), ('/' + seg + '/', 1, None, False),
+                                  ('/a/b/' + seg + '/' + seg, 2, 3, True), ('/' + seg + '//x', 1, 3, False),
+                                  (seg, 1, None, False), ('/' + '/'.join(['s'] * n), 2, n, False),
+                                  ('/' + '/'.join(['s'] * n), 2, 3, True), ('/' + '/'.join(['s'] * n), 2, 3, False)]:
+            yield {'kind': 'path', 'path': path, 'minsegs': mn, 'maxsegs': mx, 'rest_with_last': rwl}, 'long'
+
+
+BARE_ALPHA = list('abcxyzABC0123456789') + list("!#$%&'()*+-./:;<=>?@[]^_`{|}~")
+
+
+def gen_long_items(rng, quick):
+    """Item lists of length 1..5 with one long item (bare = only word characters, so written unquoted; spaced /
+    quoting = needs quotes), at every position; plus lengths spread between 100 and 5000."""
+    lengths = LONG_LENGTHS if not quick else [1000, 1024, 1025, 4096, 70000]
+    kinds = {'bare': BARE_ALPHA, 'spaced': BARE_ALPHA + [' ', ' '], 'quoting': BARE_ALPHA + ['"', ',', '\\', ' ']}
+    for n in lengths:
+        for kname in sorted(kinds):
+            big = long_text(rng, n, kinds[kname])
+            for items in ([big], [big, 'b'], ['a', big], ['a', big, 'c d', '', 'e']):
+                yield items, 'long/%s' % kname
+    for _ in range(40 if quick else 400):
+        n = int(100 * (50 ** rng.random()))
+        kname = rng.choice(sorted(kinds))
+        items = gen_items(rng)
+        items[rng.randrange(len(items))] = long_text(rng, n, kinds[kname])
+        yield items, 'long/%s' % kname
+
+
+def gen_blank_items(rng):
+    """Items whose first / last / only characters are blanks: they must come back unchanged (TAB, LF, CR inside an
+    item are outside the round trip and are judged by the grammar oracle instead)."""
+    for w in BLANKS:
+        for items in ([w], [w + 'a'], ['a' + w], [w + 'a' + w, 'b'], ['a', w], ['a' + w + 'b', w + w]):
+            yield items
+
+
+def gen_blank_values():
+    """Raw strings: a blank before / after / between the written items, outside any quotes."""
+    for w in BLANKS:
+        for v in (w + 'a', 'a' + w, w + '"a"', '"a"' + w, 'a,' + w + 'b', 'a' + w + ',b', 'a,b' + w, w + 'a,b',
+                  '"a",' + w + '"b"' + w, w, 'a' + w + 'b', '"a' + w + '"'):
+            yield v
 
 
 SMALL_ALPHA = ['"', ',', '\\', ' ', 'a', '3', 'x']
@@ -260,6 +367,13 @@ def gen_commas_cases(ctx):
     for _ in range(3000 if ctx.quick else 30000):
         body = ''.join(rng.choice(esc) for _ in range(rng.randrange(0, 9)))
         yield {'kind': 'commas', 'value': rng.choice(['', 'a,', ' ']) + '"' + body + '"' + rng.choice(['', '', ',b'])}, 'escapes'
+    for items, tag in gen_long_items(rng, ctx.quick):
+        for style in ('canon', 'allq'):
+            yield {'kind': 'commas', 'value': encode_items(rng, items, style), 'items': items, 'style': style}, tag
+    for items in gen_blank_items(rng):
+        yield {'kind': 'commas', 'value': encode_items(rng, items, 'canon'), 'items': items, 'style': 'canon'}, 'blank-items'
+    for v in gen_blank_values():
+        yield {'kind': 'commas', 'value': v}, 'blank-values'
     raw = ['"', '"', ',', '\\', '\\', ' ', 'a', 'b', 't', 'n', 'x', 'u', '0', '3', '4', '2', '7', 'f', '\n', '\t', '\r', '\u00e9', '\x0b']
     for _ in range(4000 if ctx.quick else 40000):
         yield {'kind': 'commas', 'value': ''.join(rng.choice(raw) for _ in range(rng.randrange(0, 11)))}, 'raw'
@@ -322,6 +436,8 @@ def correspondence(ctx):
     rng = ctx.rng
     streams = [
         gen_path_cases_exhaustive(5 if ctx.quick else 7),
+        gen_path_edge_cases(ctx.quick),
+        gen_path_long_cases(rng),
         (((gen_path_random(rng)), 'random') for _ in range(20000 if ctx.quick else 300000)),
         gen_commas_cases(ctx),
         gen_prim_cases(ctx),
@@ -336,7 +452,9 @@ def correspondence(ctx):
                 r = impl_of(case)
                 if r != 'ValueError' or key.startswith(('malformed', 'mutated')):
                     shown[key] = 1
-                    ctx.sample({'case': case, 'implementation': show(r) if case['kind'] in ('path', 'commas') else r}, 10)
+                    ctx.sample({'case': {k: (short(v) if isinstance(v, (str, list)) and len(repr(v)) > 200 else v)
+                                         for k, v in case.items()},
+                                'implementation': show(r) if case['kind'] in ('path', 'commas') else r}, 14)
             if len(batch) >= 200000:
                 run_batch(ctx, batch, out)
                 batch = []
@@ -380,9 +498,18 @@ def oracle_path(case):
     got = impl_path(case['path'], case['minsegs'], case['maxsegs'], case['rest_with_last'])
     want = spec_split_path(case['path'], case['minsegs'], case['maxsegs'], case['rest_with_last'])
     if got != want:
-        return 'split_path%r returned %s, contract says %s' % (
-            (case['path'], case['minsegs'], case['maxsegs'], case['rest_with_last']), show(got), show(want))
+        return 'split_path(%s, %r, %r, %r) returned %s, contract says %s' % (
+            short(case['path']), case['minsegs'], case['maxsegs'], case['rest_with_last'], show(got), show(want))
     return None
+
+
+def short(x, limit=160):
+    """repr for messages: long strings are abbreviated (the replay file holds the full case)."""
+    if isinstance(x, str):
+        return repr(x) if len(x) <= limit else '%r...<%d chars>' % (x[:60], len(x))
+    if isinstance(x, (list, tuple)):
+        return '[' + ', '.join(short(i, limit) for i in x) + ']'
+    return repr(x)
 
 
 def show(enc):
@@ -391,7 +518,7 @@ def show(enc):
     body = enc[3:]
     if body == '':
         return '[]'
-    return repr([None if x == 'N' else common.unhexs(x) for x in body.split(',')])
+    return short([None if x == 'N' else common.unhexs(x) for x in body.split(',')])
 
 
 ITEM_RE = r'(?:"(?:\\[^\n]|[^"\\\n\r])*"|[!#-+\--~]+)'
@@ -407,27 +534,27 @@ def oracle_commas(case):
     if 'items' in case and not any(c in it for it in case['items'] for c in '\t\n\r'):
         want = 'ok:' + ','.join(hexs(x) for x in case['items'])
         if got != want:
-            return 'split_by_commas(%r) returned %s, the joined items were %r' % (v, show(got), case['items'])
+            return 'split_by_commas(%s) returned %s, the joined items were %s' % (short(v), show(got), short(case['items']))
         return None
     if case.get('expect') == 'ValueError':
         if got != 'ValueError':
-            return 'split_by_commas(%r) returned %s but the string has %s' % (v, show(got), case.get('why'))
+            return 'split_by_commas(%s) returned %s but the string has %s' % (short(v), show(got), case.get('why'))
         return None
     accept = bool(GRAMMAR_RE.match(v))
     if accept != got.startswith('ok:'):
-        return 'split_by_commas(%r) gave %s; the grammar (quoted | word) list says %s' % (
-            v, show(got), 'accept' if accept else 'ValueError')
+        return 'split_by_commas(%s) gave %s; the grammar (quoted | word) list says %s' % (
+            short(v), show(got), 'accept' if accept else 'ValueError')
     if got.startswith('ok:'):
         items = [common.unhexs(x) for x in got[3:].split(',')]
         if not any(c in it for it in items for c in '\t\n\r'):
             again = impl_commas(','.join(py_quote_if_needed(i) for i in items))
             if again != got:
-                return 'split_by_commas(%r) returned %s, whose re-encoding splits to %s' % (v, show(got), show(again))
+                return 'split_by_commas(%s) returned %s, whose re-encoding splits to %s' % (short(v), show(got), show(again))
         if not SPECIAL_ESC.search(v) and '\t' not in v:
             want = [re.sub(r'\\(.)', r'\1', m[1:-1], flags=re.S) if m.startswith('"') else m
                     for m in re.findall(ITEM_RE, v)]
             if items != want:
-                return 'split_by_commas(%r) returned %r, the items written are %r' % (v, items, want)
+                return 'split_by_commas(%s) returned %s, the items written are %s' % (short(v), short(items), short(want))
     return None
 
 
@@ -439,14 +566,20 @@ def oracle(case):
     return None      # str.split / expandtabs are CPython, not the property
 
 
-def shrink(case):
-    """Greedy shrinking of the string (path / value) while the oracle still fails."""
+def shrink(case, deadline=None):
+    """Greedy shrinking of the string (path / value) while the oracle still fails (bounded by a wall-clock deadline:
+    once it has passed every further candidate is refused, so the current smallest failing case is kept)."""
     case = dict(case)
+
+    def judged(c):          # deadline-aware oracle
+        if deadline is not None and time.time() > deadline:
+            return None
+        return oracle(c)
     key = 'path' if case['kind'] == 'path' else 'value'
     if 'items' in case:
         def still_items(sub):
             c = dict(case, items=list(sub), value=','.join(py_quote_if_needed(i) for i in sub))
-            return oracle(c) is not None
+            return judged(c) is not None
         if still_items(case['items']):
             items = common.shrink_list(case['items'], still_items)
             for k in range(len(items)):
@@ -461,7 +594,7 @@ def shrink(case):
         v = ''.join(chars)
         if case.get('expect') == 'ValueError' and GRAMMAR_RE.match(v):
             return False         # the shrunk string must still be one the written grammar rejects
-        return oracle(dict(case, **{key: v})) is not None
+        return judged(dict(case, **{key: v})) is not None
     chars = common.shrink_list(list(case[key]), still) if len(case[key]) > 1 else list(case[key])
     if ''.join(chars) != case[key] and 'why' in case:
         case['why'] = 'text the grammar rejects (shrunk from a string with: %s)' % case['why']
@@ -473,12 +606,18 @@ def search(ctx, seeds, full=False):
     rng = ctx.rng
     fails, kinds = [], set()
 
+    shrink_budget = [60.0]       # seconds of wall clock spent on shrinking, over the whole search
+
     def consider(case):
         ctx.evaluations += 1
         why = oracle(case)
         if not why:
             return
-        small = shrink(case)
+        small = case
+        if shrink_budget[0] > 0:
+            t0 = time.time()
+            small = shrink(case, deadline=t0 + min(20.0, shrink_budget[0]))
+            shrink_budget[0] -= time.time() - t0
         why = oracle(small) or why
         kind = small['kind'] + '/' + (why.split(' returned ')[-1].split(',')[0][:30] if small['kind'] == 'path' else
                                       small.get('why', 'round-trip' if 'items' in small else 'grammar'))
@@ -492,6 +631,22 @@ def search(ctx, seeds, full=False):
             consider(s)
             if len(fails) >= 5:
                 return fails
+    # blanks / control characters at every structural position, and long inputs: always in full
+    families = [c for c, _ in gen_path_edge_cases(ctx.quick)]
+    families += [c for c, _ in gen_path_long_cases(rng)]
+    for items, _ in gen_long_items(rng, ctx.quick):
+        families.append({'kind': 'commas', 'items': items, 'value': ','.join(py_quote_if_needed(x) for x in items),
+                         'style': 'canon'})
+    for items in gen_blank_items(rng):
+        families.append({'kind': 'commas', 'items': items, 'value': ','.join(py_quote_if_needed(x) for x in items),
+                         'style': 'canon'})
+    families += [{'kind': 'commas', 'value': v} for v in gen_blank_values()]
+    for c in families:
+        if c['kind'] == 'path' and c['minsegs'] < 1:
+            continue
+        consider(c)
+        if len(fails) >= 5:
+            return fails
     # split_path: the exhaustive domain when something broke, a sample of it otherwise
     if full:
         for case, _ in gen_path_cases_exhaustive(5 if ctx.quick else 6):
